@@ -133,10 +133,14 @@ where
                 return x;
             }
 
-            let t = (F::one() + F::one() / x).powf(self.s_minus_1);
+            // t = (1 + 1/x)^(s-1) and b = 2^(s-1) are both close to 1 when x is large or s is
+            // close to 1: evaluate t - 1 and b - 1 without cancellation.
+            let t_minus_1 = ((F::one() / x).ln_1p() * self.s_minus_1).exp_m1();
+            let t = t_minus_1 + F::one();
+            let b_minus_1 = (self.s_minus_1 * F::from(core::f64::consts::LN_2).unwrap()).exp_m1();
 
             let v = rng.sample(StandardUniform);
-            if v * x * (t - F::one()) * self.b <= t * (self.b - F::one()) {
+            if v * x * t_minus_1 * self.b <= t * b_minus_1 {
                 return x;
             }
         }
